@@ -366,6 +366,22 @@ def real_parse(match_text):
 
 # ---------------------------------------------------------------- cases
 
+def vary_inner_ws(nodes):
+    """doubles one blank inside the first string, quoted header or regex that has one; True if something changed"""
+    for n in nodes:
+        if n["k"] == "term" and n["t"] in ("str", "regex") and " " in n["v"]:
+            n["v"] = n["v"].replace(" ", "  ", 1)
+            return True
+        if n["k"] == "header" and n["name"].startswith('"') and " " in n["name"]:
+            n["name"] = n["name"].replace(" ", "  ", 1)
+            return True
+        if n["k"] == "fn" and vary_inner_ws(n["args"]):
+            return True
+        if n["k"] == "eq" and (vary_inner_ws([n["l"]]) or vary_inner_ws([n["r"]])):
+            return True
+    return False
+
+
 def gen_case(seed, i):
     r = rng(seed, "parse", i)
     kind = "tree" if r.random() < 0.8 else "malformed"
@@ -450,6 +466,26 @@ def case_parse(case):
             if got is not None and not same(mt, got):
                 res["disagree"].append({"what": "parse: model and code build different trees", "text": text, "real": got, "model": mt})
         trees.append(got)
+    # a second source that differs from the first only by white space *inside* a quoted token: it is a different program
+    # and must get its own tree, whatever was parsed before in this process
+    import copy as _copy
+    import random as _random
+
+    tree2 = _copy.deepcopy(tree)
+    if vary_inner_ws(tree2):
+        st = r.getstate()
+        r1 = _random.Random(0)
+        r1.setstate(st)
+        r2 = _random.Random(0)
+        r2.setstate(st)
+        ta, tb = render(tree, r1, "loose"), render(tree2, r2, "loose")
+        ga, _ea, _ = real_parse(ta)
+        gb, eb, _ = real_parse(tb)
+        want2 = [spec_node(e) for e in tree2]
+        res["counts"]["inner_whitespace_variant"] = 1
+        if gb is None or not same(gb, want2):
+            res["oracle"].append({"what": "parse: a source differing only by white space inside a quoted token did not get its own tree",
+                                  "first": ta, "second": tb, "got": gb, "want": want2, "error": eb})
     if trees[0] is not None and any(not same(trees[0], t) for t in trees[1:] if t is not None):
         res["oracle"].append({"what": "parse: two layouts of the same components give different trees", "texts": layouts})
     res["nontrivial"] = len(tree) >= 2 and any(e["k"] in ("fn", "eq") for e in tree)
